@@ -104,6 +104,47 @@ def _phase_unencodable(workdir, orig, args, setup):
     return {"exc": _raw_request_call(mpath, args)}
 
 
+def _plain_edit(workdir, start_bytes, req, via, setup):
+    """Un-faulted edit of a metafile holding start_bytes; returns the resulting bytes (grandchild)."""
+    os.makedirs(workdir, exist_ok=True)
+    src = os.path.join(workdir, "start.bin")
+    with open(src, "wb") as fd:
+        fd.write(start_bytes)
+    mpath = _place(os.path.join(workdir, "w"), src, setup)
+    exc = _edit_call(mpath, req, via)
+    with open(os.path.join(workdir, "w", "m.torrent"), "rb") as fd:
+        return {"exc": exc, "new": fd.read()}
+
+
+def _phase_seq(workdir, orig, req1, req2, via, pre_fault, fault2, setup):
+    """Fault SEQUENCE in one process: edit 1 suffers an I/O error (and survives), edit 2 suffers fault2."""
+    mpath = _place(workdir, orig, setup)
+    real = os.path.join(workdir, "m.torrent")
+    ff = faults.FsFaults()
+    ff.fault = pre_fault
+    ff.install()
+    ff.active = True
+    exc1 = _edit_call(mpath, req1, via)
+    ff.active = False
+    fired1 = ff.fired
+    ff.uninstall()
+    try:
+        with open(real, "rb") as fd:
+            s1 = fd.read()
+    except FileNotFoundError:
+        s1 = None
+    with open(os.path.join(workdir, "s1.bin"), "wb") as fd:
+        fd.write(b"MISSING" if s1 is None else b"OK:" + s1)
+    ff2 = faults.FsFaults()
+    ff2.fault = fault2
+    ff2.install()
+    ff2.active = True
+    exc2 = _edit_call(mpath, req2, via)
+    ff2.active = False
+    ff2.uninstall()
+    return {"exc1": exc1, "exc2": exc2, "fired1": fired1, "fired2": ff2.fired}
+
+
 class _Obj:
     pass
 
@@ -128,12 +169,14 @@ class C17:
             "inconclusive); phase 2 re-runs the edit in a fresh forked process once per fault: crash (os._exit) before "
             "the first and last occurrence of every distinct line and before 24 further line events, crash before / "
             "after every filesystem operation, crash after 0 / 1 / half / n-1 bytes of every write, OSError EACCES / "
-            "ENOSPC / EIO instead of every operation, short write then ENOSPC, error on close; plus requests whose "
-            "values cannot be encoded; oracle: bytes at the metafile path are exactly the old or exactly the new "
+            "ENOSPC / EIO instead of every operation, short write then ENOSPC, error on close; fault SEQUENCES in one "
+            "process (edit 1 survives an injected EACCES/ENOSPC at any of its operations, then a second edit is hit "
+            "by a crash / short write / error at its first write, open, close, replace, remove or chmod); metafile "
+            "modes 0644..0400 and relative/absolute spelling; plus requests whose values cannot be encoded; oracle: bytes at the metafile path are exactly the old or exactly the new "
             "(un-faulted) bytes; after a raised error: the old ones unless the new file was already in place.  Every "
             "faulted execution is one evaluation; distinct by (version, request shape, fault point kind, fault kind)")
     required = ("line_fault_points", "op_fault_points", "write_byte_fault_points", "error_faults", "crashes_observed",
-                "errors_propagated", "unencodable_requests", "traces_complete", "readonly_metafile_cases")
+                "errors_propagated", "unencodable_requests", "traces_complete", "readonly_metafile_cases", "fault_sequences")
     assumptions = ("crash = process death at a Python-visible point (os._exit); power-loss durability of un-fsynced "
                    "data is not observable here", "the filesystem primitives listed in monitors/faults.py are the only "
                    "ones used (checked per case against the audit hook)")
@@ -148,6 +191,7 @@ class C17:
                 "files": [[f"f{k}", rng.choice([10, 20000, 40000]), rng.randrange(1 << 30)] for k in range(nfiles)],
                 "seed": rng.randrange(1 << 30), "extra_lines": 24 if tier == "quick" else "all",
                 "mode": rng.choice([0o644, 0o644, 0o600, 0o444, 0o400, 0o664]), "relative": rng.random() < 0.3,
+                "req2": gen_request(rng, route), "seq_samples": 16 if tier == "quick" else 60,
                 "unenc": [rng.randrange(len(UNENCODABLE)) for _ in range(2)]}
 
     @staticmethod
@@ -253,6 +297,49 @@ class C17:
             elif not crashed and res.get("exc") and state == "new" and fkind.startswith("op-error"):
                 pass    # error struck after the new file was in place: allowed by the statement
             shutil.rmtree(wd, ignore_errors=True)
+        # ---------------- fault sequences: an I/O error survived by edit 1, then a fault during edit 2 (same process)
+        req2 = case.get("req2")
+        if req2:
+            st1, n1 = fork_call(_plain_edit, os.path.join(scratch, "n1"), old, req2, case["via"], setup)
+            st2, n2 = fork_call(_plain_edit, os.path.join(scratch, "n2"), new, req2, case["via"], setup)
+            if st1 == "ok" and st2 == "ok" and n1["exc"] is None and n2["exc"] is None:
+                after = {old: n1["new"], new: n2["new"]}
+                pre = [(idx, ("error", ev)) for idx in range(len(p1["ops"])) for ev in (faults.ERRNOS["EACCES"], faults.ERRNOS["ENOSPC"])]
+                second = [("match", "write", 0, ("crash-after-bytes", 1)), ("match", "write", 0, ("short-then-error", faults.ERRNOS["ENOSPC"], 7)),
+                          ("match", "write", 0, ("crash-before",)), ("match", "open-w|os.open-w", 0, ("crash-after",)),
+                          ("match", "close", 0, ("crash-before",)), ("match", "os.replace|os.rename", 0, ("crash-before",)),
+                          ("match", "os.replace|os.rename", 0, ("error", faults.ERRNOS["EACCES"])),
+                          ("match", "os.remove|os.unlink", 0, ("crash-after",)), ("match", "os.chmod", 0, ("crash-after",))]
+                combos = [(a, b) for a in pre for b in second]
+                rng.shuffle(combos)
+                for n, (pf, f2) in enumerate(combos[:case.get("seq_samples", 16)]):
+                    wd = os.path.join(scratch, f"s{n}")
+                    st, res = fork_call(_phase_seq, wd, orig, case["req"], req2, case["via"], pf, f2, setup, timeout=60)
+                    execs += 1
+                    if st in ("timeout", "exc"):
+                        return {"inconclusive": "fault sequence run " + st, "traceback": str(res)[-1500:]}
+                    try:
+                        with open(os.path.join(wd, "s1.bin"), "rb") as fd:
+                            tag = fd.read()
+                    except FileNotFoundError:
+                        tag = None        # died during edit 1 (cannot happen with error-only faults)
+                    try:
+                        with open(os.path.join(wd, "m.torrent"), "rb") as fd:
+                            cur = fd.read()
+                    except FileNotFoundError:
+                        cur = None
+                    counters["fault_sequences"] = counters.get("fault_sequences", 0) + 1
+                    sigs.add((case["version"], "sequence", str(p1["ops"][pf[0]][0]), str(f2[1]), str(f2[3][0])))
+                    s1 = None if tag in (None, b"MISSING") else tag[3:]
+                    if s1 not in after:
+                        viol.append(oracles.V("metafile-bad-after-first-faulted-edit", pre_fault=[str(x) for x in pf],
+                                              state="missing" if s1 is None else f"{len(s1)} bytes", request=case["req"]))
+                    elif cur not in (s1, after[s1]):
+                        viol.append(oracles.V("metafile-bad-after-fault-sequence", pre_fault=[p1["ops"][pf[0]][0]] + [str(x) for x in pf[1]],
+                                              second_fault=[str(x) for x in f2], crashed=(st == "died"),
+                                              state="missing" if cur is None else f"{len(cur)} bytes (previous {len(s1)}, edited {len(after[s1])})",
+                                              requests=[case["req"], req2], via=case["via"]))
+                    shutil.rmtree(wd, ignore_errors=True)
         # ---------------- un-encodable requests
         for ui in case["unenc"]:
             label, args = UNENCODABLE[ui]
@@ -321,6 +408,7 @@ class C18:
             "flags, option subset, content state, out form)")
     required = ("snap_recheck", "snap_info", "snap_magnet", "snap_create", "snap_rename", "create_write_events_seen",
                 "probe_path_preexisting", "probe_path_preexisting_empty", "failing_create_cases", "rename_target_exists",
+                "rename_target_is_directory",
                 "damaged_content_cases")
     assumptions = ("directory mtimes are not part of the snapshot", "stdout/stderr go to /dev/null (never to a file in the sandbox)")
 
@@ -342,6 +430,7 @@ class C18:
             case["magnet"] = rng.random() < 0.2
         if cmd == "rename":
             case["target_exists"] = rng.random() < 0.4
+            case["target_kind"] = rng.choice(["file", "file", "dir", "dir-populated"])
             case["metaname"] = rng.choice(["old.torrent", "x.torrent", "weird name.torrent"])
         return case
 
@@ -414,8 +503,17 @@ class C18:
                 case = dict(case, target_exists=True)      # already carries its own name: nothing may change
                 counters["rename_target_exists"] = 1
             elif case["target_exists"]:
-                with open(target, "wb") as fd:
-                    fd.write(b"d4:infod4:name5:othereee")
+                if case.get("target_kind") == "dir":
+                    os.makedirs(target)
+                    counters["rename_target_is_directory"] = 1
+                elif case.get("target_kind") == "dir-populated":
+                    os.makedirs(target)
+                    with open(os.path.join(target, "inside.txt"), "wb") as fd:
+                        fd.write(b"x")
+                    counters["rename_target_is_directory"] = 1
+                else:
+                    with open(target, "wb") as fd:
+                        fd.write(b"d4:infod4:name5:othereee")
                 counters["rename_target_exists"] = 1
             else:
                 expect_added.add("meta/" + tree["name"] + ".torrent")
@@ -481,6 +579,8 @@ class C18:
         d = env.snapdiff(before, after)
         counters["snap_" + kind] = 1
         wevents = _audit_paths_outside_dev(events)
+        for e, _ in wevents:
+            counters[f"audit:{kind}:{e}"] = counters.get(f"audit:{kind}:{e}", 0) + 1
         shown = [a.replace(scratch, "<S>") for a in argv]
         if kind in ("recheck", "info", "magnet"):
             if not oc.ok and not (kind == "recheck" and oc.excname() in ("FileNotFoundError",)):
@@ -528,7 +628,7 @@ class C18:
                     viol.append(oracles.V("create-added-unexpected", added=sorted(added), want=sorted(expect_added), argv=shown))
                 if not changed <= may_change:
                     viol.append(oracles.V("create-changed-unexpected", changed=sorted(changed - may_change), argv=shown))
-        flags = [case["flag"], case.get("out"), case.get("preexisting"), case.get("target_exists"),
+        flags = [case["flag"], case.get("out"), case.get("preexisting"), case.get("target_exists") and case.get("target_kind"),
                  case["damage"] and kind != "create", bool(case.get("fail"))]
         return {"violations": viol, "counters": counters, "reach": reach.collect(), "nontrivial": True,
                 "sig": [cmd, case["version"], flags, sorted(case.get("opts", {})), tree["layout"]],
